@@ -135,21 +135,29 @@ def _arith(op, a, b):
     elif op == "/":
         if not real:
             za, zb = z3.ToReal(za), z3.ToReal(zb)
-        cur().partial(zb != 0, ZeroDivisionError, "division by zero")
+        if not _nonzero_const(zb):
+            cur().partial(zb != 0, ZeroDivisionError, "division by zero")
         return SReal(za / zb)
     elif op == "//":
         if real:
             raise Unsupported("float floor division")
-        cur().partial(zb != 0, ZeroDivisionError, "integer division or modulo by zero")
+        if not _nonzero_const(zb):
+            cur().partial(zb != 0, ZeroDivisionError, "integer division or modulo by zero")
         return mk_int(py_floordiv(za, zb))
     elif op == "%":
         if real:
             raise Unsupported("float modulo")
-        cur().partial(zb != 0, ZeroDivisionError, "integer division or modulo by zero")
+        if not _nonzero_const(zb):
+            cur().partial(zb != 0, ZeroDivisionError, "integer division or modulo by zero")
         return mk_int(py_mod(za, zb))
     else:
         raise Unsupported(op)
     return SReal(r) if real else mk_int(r)
+
+
+def _nonzero_const(zb):
+    zb = z3.simplify(zb)
+    return (z3.is_int_value(zb) and zb.as_long() != 0) or (z3.is_rational_value(zb) and zb.numerator_as_long() != 0)
 
 
 def py_floordiv(za, zb):
